@@ -28,6 +28,10 @@ type C04File struct {
 	LineLens     []int      `json:"line_lens"`     // payload length of each appended line
 	TrailingPart int        `json:"trailing_part"` // bytes of an unterminated last line
 	Writes       []C04Write `json:"writes"`        // chunking of the append stream
+	// RotateAt > 0: before write number RotateAt the writer completes the current
+	// line, renames the file to <name>.1 and carries on in a newly created file
+	// of the old name (log rotation)
+	RotateAt int `json:"rotate_at,omitempty"`
 }
 
 type C04Scenario struct {
@@ -175,6 +179,15 @@ func c04Gen(r *Rand, tier string, i int) Scenario {
 	case 1:
 		h := r.Intn(200)
 		sc.Stalls = append(sc.Stalls, StallSpec{Name: "consumer.single", Site: siteStdoutLock, Suffix: "/lock", From: h, To: h + 1, DurMs: PickOf(r, 200, 2000)})
+	}
+	if !smallMLL && r.Bool(0.06) {
+		// log rotation in the second half of the stream (the new file stays
+		// shorter than what was read from the old one, so the periodic check
+		// notices it)
+		f := &sc.Files[0]
+		if n := len(f.Writes); n >= 4 {
+			f.RotateAt = r.Range(n/2, n-1)
+		}
 	}
 	if !smallMLL && (r.Bool(0.05) || os.Getenv("VERIF_C04_OVERFLOW") != "") {
 		// a slight overflow after a long quiet stretch: 200-330 lines delivered
@@ -346,7 +359,7 @@ func c04Run(t *testing.T, s Scenario, src verifsim.DecisionSource, keep bool) *R
 				f := sc.Files[fi]
 				fd, err := os.OpenFile(paths[fi], os.O_APPEND|os.O_WRONLY, 0644)
 				must(err)
-				defer fd.Close()
+				defer func() { fd.Close() }()
 				lines := sc.appendLines(fi)
 				var stream bytes.Buffer
 				for _, ln := range lines {
@@ -358,10 +371,38 @@ func c04Run(t *testing.T, s Scenario, src verifsim.DecisionSource, keep bool) *R
 				// per byte: was the follow open when it was written?
 				openAt := make([]bool, len(data))
 				pos := 0
-				for _, wr := range f.Writes {
+				for wi, wr := range f.Writes {
 					w.Sleep(time.Duration(wr.DelayMs) * time.Millisecond)
 					verifsim.Yield("harness/write")
+					if f.RotateAt > 0 && wi == f.RotateAt {
+						// complete the current line in the old file, let the follower catch
+						// up, rotate
+						cut := pos
+						if pos > 0 && data[pos-1] != '\n' {
+							if k := bytes.IndexByte(data[pos:], '\n'); k >= 0 {
+								cut = pos + k + 1
+							} else {
+								cut = len(data)
+							}
+						}
+						op := followOpen(paths[fi])
+						for k := pos; k < cut; k++ {
+							openAt[k] = op
+						}
+						_, err := fd.Write(data[pos:cut])
+						must(err)
+						pos = cut
+						w.Sleep(300 * time.Millisecond)
+						fd.Close()
+						must(os.Rename(paths[fi], paths[fi]+".1"))
+						fd, err = os.OpenFile(paths[fi], os.O_CREATE|os.O_APPEND|os.O_WRONLY, 0644)
+						must(err)
+						w.Sim.Fault("writer.rotation")
+					}
 					end := pos + wr.Len
+					if end < pos {
+						end = pos
+					}
 					if end > len(data) {
 						end = len(data)
 					}
@@ -558,7 +599,7 @@ func c04Oracle(sc *C04Scenario, truth [][]c04Line, stdout []byte) (string, strin
 			return
 		}
 		for gi, g := range got {
-			if g.count <= lastCount {
+			if g.count <= lastCount && sc.Files[fi].RotateAt == 0 {
 				return "count-not-increasing", fmt.Sprintf("file %d: record %d carries running number %d after %d", fi, gi+1, g.count, lastCount), drops
 			}
 			lastCount = g.count
